@@ -24,6 +24,24 @@ _Any = NewType('_Any', int)
 _scalar_constructor = yaml.constructor.SafeConstructor()
 
 
+def _float_to_yaml(value: float) -> str:
+    """Formats a float the way YAML writes it.
+
+    Python writes inf and nan, YAML .inf and .nan, and YAML 1.1 needs a
+    decimal point to see a float, so 1e+22 must become 1.0e+22.
+    """
+    if value != value:
+        return '.nan'
+    if value == float('inf'):
+        return '.inf'
+    if value == float('-inf'):
+        return '-.inf'
+    value_str = repr(value).lower()
+    if '.' not in value_str and 'e' in value_str:
+        value_str = value_str.replace('e', '.0e', 1)
+    return value_str
+
+
 class Node:
     """A wrapper class for yaml Nodes that provides utility functions.
 
@@ -122,6 +140,8 @@ class Node:
         """
         if isinstance(value, bool):
             value_str = 'true' if value else 'false'
+        elif isinstance(value, float):
+            value_str = _float_to_yaml(value)
         else:
             value_str = str(value)
         start_mark = self.yaml_node.start_mark
@@ -269,7 +289,8 @@ class Node:
             value_node = yaml.ScalarNode('tag:yaml.org,2002:int', str(value),
                                          start_mark, end_mark)
         elif isinstance(value, float):
-            value_node = yaml.ScalarNode('tag:yaml.org,2002:float', str(value),
+            value_node = yaml.ScalarNode('tag:yaml.org,2002:float',
+                                         _float_to_yaml(value),
                                          start_mark, end_mark)
         elif value is None:
             value_node = yaml.ScalarNode('tag:yaml.org,2002:null', '',
